@@ -247,7 +247,7 @@ func checkBreakGuards(c *Ctx, rule string) {
 	// break predicate definition: returns Level == -1
 	var isBreaking *ssa.Function
 	for _, f := range p.Funcs {
-		if f.Name() == "IsBreaking" && f.Signature.Recv() != nil {
+		if fnName(f) == "IsBreaking" && f.Signature.Recv() != nil {
 			isBreaking = f
 		}
 	}
@@ -271,7 +271,7 @@ func checkBreakGuards(c *Ctx, rule string) {
 	// "blinds are set" predicate: level != 0 and none of the four amounts is the unset value
 	var isSet *ssa.Function
 	for _, f := range p.Funcs {
-		if f.Name() == "IsSet" && f.Signature.Recv() != nil && namedOf(f.Signature.Recv().Type()) != nil && namedOf(f.Signature.Recv().Type()).Obj().Name() == "TableBlindState" {
+		if fnName(f) == "IsSet" && f.Signature.Recv() != nil && namedOf(f.Signature.Recv().Type()) != nil && namedOf(f.Signature.Recv().Type()).Obj().Name() == "TableBlindState" {
 			isSet = f
 		}
 	}
@@ -366,7 +366,7 @@ func checkBreakGuards(c *Ctx, rule string) {
 	// pause predicate consults the break predicate
 	var shouldPause *ssa.Function
 	for _, f := range p.Funcs {
-		if f.Name() == "ShouldPause" && f.Signature.Recv() != nil {
+		if fnName(f) == "ShouldPause" && f.Signature.Recv() != nil {
 			shouldPause = f
 		}
 	}
